@@ -93,11 +93,14 @@ func checkC04(c *Ctx) {
 	}
 	lk := c.Func(CorePath, "Lock")
 	if c.Anchor("R4.4", "zapcore.Lock", lk != nil) {
+		// decided by path exploration in R13.3 (c13WrapOrKeep); here: some *lockedWriteSyncer is built in Lock or a helper of it
 		ok := false
-		for _, r := range Returns(lk) {
-			if a, isA := Strip(RetVals(r)[0]).(*ssa.Alloc); isA && TypeName(deref(a.Type())) == "zapcore.lockedWriteSyncer" {
-				ok = true
-			}
+		for _, f := range Region(lk) {
+			AllInstrs(f, func(i ssa.Instruction) {
+				if a, isA := i.(*ssa.Alloc); isA && TypeName(deref(a.Type())) == "zapcore.lockedWriteSyncer" {
+					ok = true
+				}
+			})
 		}
 		c.Check(ok, "R4.4", lk.String(), "wraps", lk.Pos(), "Lock returns a *lockedWriteSyncer around its argument")
 	}
